@@ -515,6 +515,10 @@ def gen_pipeline_cfg(seed, big=False):
         argv.append("--ligand={ligand}")
     if rng.random() < 0.2 and nres >= 6:
         cfg["chains"] = rng.sample(["A", "B", "C", "X", "a", "1"], 2)
+    if rng.random() < 0.12:
+        # residues held fixed by a library user (every stride-th residue)
+        stride = rng.choice([2, 3, 5])
+        cfg["hold"] = [stride, rng.randrange(stride)]
     cfg["argv"] = argv
     return cfg
 
@@ -561,6 +565,8 @@ def terminus_matrix_cfgs():
                            "solvate": [[term, 6]], "argv": list(o)}
                     if k % 3 == 2:
                         cfg["damage"] = [[term, "add_oxt"]] if end == "C" else []
+                    if (len(out) + k) % 4 == 0:
+                        cfg["hold"] = [2, (len(out) // 4) % 2]
                     out.append(cfg)
     return out
 
@@ -571,10 +577,30 @@ def job_pipeline(job, scratch):
 
     mon = cellmon.CellMonitor()
     mon.install()
+    # the hold list is the one input of the optimisation stage that only a library user can
+    # supply (main.py passes None at the call site): the harness stands in for that user and
+    # substitutes a seeded list at the same call, through a class-level wrapper
+    hold = job["cfg"].get("hold")
+    orig_hold = None
+    if hold:
+        from pdb2pqr import biomolecule as _bm
+
+        orig_hold = _bm.Biomolecule.hold_residues
+        stride, off = hold
+
+        def _hold(self, hlist):
+            if not hlist:
+                hlist = [(r.res_seq, r.chain_id, r.ins_code)
+                         for i, r in enumerate(self.residues) if i % stride == off]
+            return orig_hold(self, hlist)
+
+        _bm.Biomolecule.hold_residues = _hold
     try:
         obs = runner.run_cfg(job["cfg"], scratch)
     finally:
         mon.uninstall()
+        if orig_hold is not None:
+            _bm.Biomolecule.hold_residues = orig_hold
     rep = mon.report()
     rep["outcome"] = obs["outcome"]
     rep["exc"] = obs["exc"]
@@ -595,7 +621,7 @@ def _shrink_pipeline(run_one, cfg, key):
 
     cur = dict(cfg)
     # 1. drop decorations
-    for field in ("rigid", "damage", "rename", "waters", "solvate"):
+    for field in ("rigid", "damage", "rename", "waters", "solvate", "hold"):
         if cur.get(field):
             cand = {k: v for k, v in cur.items() if k != field}
             if still(cand):
